@@ -1002,12 +1002,11 @@ static void sp_fn_case(int nfixed, int hasopt, int nopt, int tail, int namekind,
                      "comp.fn: VARARG iff a rest parameter, &keys or &named collects the remaining arguments; STRUCTARG iff they are collected into a struct (&keys, &named)");
     __CPROVER_assert(sp_def.slotcount >= arity + vararg, "comp.fn: the frame has a slot for every positional parameter and the collected rest");
     /* parameter k lives in register k: any symbol bound when the definition is taken */
-    int g = nd_int();
-    __CPROVER_assume(g >= 0 && g < sp_pop_nsyms && g < 8);
+    int g = nd_int(), t = nd_int();
+    if (g < 0 || g >= sp_pop_nsyms || g >= 8) g = 0;          /* (no assume here: the cases run one after the other) */
+    if (t < 0 || t >= 6) t = 0;
     SymPair sp = sp_pop_syms[g];
-    int t = nd_int();
-    __CPROVER_assume(t >= 0 && t < 6);
-    if (sp.sym == sp_pn[t]) {
+    if (g < sp_pop_nsyms && sp.sym == sp_pn[t]) {
         __CPROVER_assert(expect_slot[t] >= 0 && sp.slot.index == expect_slot[t] && sp.slot.envindex < 0 && !(sp.slot.flags & JANET_SLOT_MUTABLE),
                          "comp.fn: the k-th positional parameter (then the rest parameter / &keys struct) is bound to register k (where the VM puts argument k)");
         REACH("fn: parameter bound");
@@ -1041,7 +1040,7 @@ static void sp_fn_case(int nfixed, int hasopt, int nopt, int tail, int namekind,
         int selfbound = 0;
         for (int i = 0; i < 8; i++) if (i < sp_pop_nsyms && sp_pop_syms[i].sym == sp_fname) selfbound++;
         __CPROVER_assert(selfbound == 1, "comp.fn: a named function can refer to itself by name");
-        if (sp.sym == sp_fname) __CPROVER_assert(sp.slot.index >= ord, "comp.fn: the self reference does not occupy a parameter register");
+        if (g < sp_pop_nsyms && sp.sym == sp_fname) __CPROVER_assert(sp.slot.index >= ord, "comp.fn: the self reference does not occupy a parameter register");
         REACH("fn: named");
     }
     if (sp_ctx == SP_USED) __CPROVER_assert(!(ret.flags & JANET_SLOT_CONSTANT) && ret.index == (int32_t)((sp_c.buffer[SP_PRE] >> 8) & 0xFF), "comp.fn: the form yields the closure");
